@@ -97,6 +97,9 @@ def parse_telegram_url(url):
 
         if path[0] == "s":
 
+            if len(path) < 2:
+                return None
+
             if path[1] == "joinchat":
                 if len(path) == 3:
                     return TelegramGroup(id=path[2])
